@@ -14,7 +14,7 @@ import (
 
 func init() { evals["C01"] = evalC01 }
 
-var c01Sched = []string{"pushonly", "attach", "detach", "reattach", "round", "losesync", "syncedit"}
+var c01Sched = []string{"pushonly", "attach", "detach", "reattach", "round", "losesync", "syncedit"} // "preattach" (edits before Attach) exists as a step but is not generated: known finding F64
 
 func evalC01(p prog.Program) Outcome {
 	res := prog.Run(p, prog.RunOpts{ProjTag: "c01", Guard: guardFor("C01", p), Reverse: p.Cfg.Flags["reverse"] == 1})
